@@ -567,6 +567,37 @@ func (g *plG) media(bits int) *playlist.Media {
 			pool = append(pool, g.key())
 		}
 		g.tag("keys")
+		// neighbours of the first key that differ from it in EXACTLY ONE field (a key change that a
+		// field-by-field comparison must notice, whichever field it is)
+		if base := pool[0]; base.Method != playlist.MediaKeyMethodNone && r.Intn(2) == 0 {
+			for f := 0; f < 5; f++ {
+				c := *base
+				switch f {
+				case 0:
+					c.URI = c.URI + "x"
+				case 1:
+					if c.IV == "" {
+						c.IV = "0x1"
+					} else {
+						c.IV = c.IV + "0"
+					}
+				case 2:
+					c.KeyFormat = c.KeyFormat + "f"
+				case 3:
+					c.KeyFormatVersions = c.KeyFormatVersions + "1"
+				default:
+					if c.Method == playlist.MediaKeyMethodAES128 {
+						c.Method = playlist.MediaKeyMethodSampleAES
+					} else {
+						c.Method = playlist.MediaKeyMethodAES128
+					}
+				}
+				if r.Intn(2) == 0 {
+					pool = append(pool, &c)
+				}
+			}
+			g.tag("keys-one-field-apart")
+		}
 	}
 	var cur *playlist.MediaKey
 	for i := 0; i < nseg; i++ {
